@@ -22,15 +22,18 @@ def run_one(m, tier, tests):
         subprocess.run(["rsync", "-a", "--exclude", ".git", "--exclude", "dfa_db", "/repo/", tmp + "/"], check=True)
         path = os.path.join(tmp, m["file"])
         src = open(path).read()
-        if src.count(m["old"]) != m.get("count", 1):
-            return m, "BAD-MUTANT", f"old text occurs {src.count(m['old'])} times"
-        src = src.replace(m["old"], m["new"]) if m.get("count", 1) == 1 or m.get("all") else src
+        for old, new in m.get("edits") or [(m["old"], m["new"])]:
+            if src.count(old) != 1:
+                return m, "BAD-MUTANT", f"old text occurs {src.count(old)} times: {old[:40]!r}"
+            src = src.replace(old, new)
         open(path, "w").write(src)
         env = dict(os.environ, VERIF_REPO=tmp, VERIF_OUT=tmp + "/.vfout", VERIF_JOBS=str(m.get("jobs", 8)))
         res = subprocess.run([os.path.join(HERE, "check"), m["prop"], tier], env=env, capture_output=True, text=True,
                              timeout=3600)
         first = next((l for l in res.stdout.splitlines() if l.startswith("  ")), "")
         status = {0: "MISSED", 1: "caught", 2: "INCONCLUSIVE"}.get(res.returncode, f"rc={res.returncode}")
+        if m.get("expect") == "held":  # a behaviour-preserving variant: the check must stay silent
+            status = {0: "silent-ok", 1: "FALSE-ALARM", 2: "INCONCLUSIVE"}.get(res.returncode, f"rc={res.returncode}")
         extra = first.strip()[:160]
         if tests:
             t = subprocess.run(["/venv/bin/python", "-m", "pytest", "-q", "-x", "-p", "no:cacheprovider", "-n", "4"],
@@ -59,8 +62,8 @@ def main():
     bad = 0
     for m, status, extra in results:
         print(f"{m['prop']} {m['name']:<40} {status:<12} {extra}")
-        bad += status != "caught"
-    print(f"{len(results) - bad}/{len(results)} caught")
+        bad += status not in ("caught", "silent-ok")
+    print(f"{len(results) - bad}/{len(results)} as expected")
     return 1 if bad else 0
 
 
